@@ -1,13 +1,13 @@
 package main
 
 import (
-	"regexp"
-	"sort"
-	"strconv"
 	"fmt"
 	"go/constant"
 	"go/token"
 	"go/types"
+	"regexp"
+	"sort"
+	"strconv"
 	"strings"
 
 	"golang.org/x/tools/go/ssa"
@@ -1202,7 +1202,7 @@ var intrinsicNames = map[string]bool{
 	"sync.(*Mutex).Lock": true, "sync.(*Mutex).Unlock": true, "sync.(*RWMutex).Lock": true, "sync.(*RWMutex).Unlock": true,
 	"sync.(*RWMutex).RLock": true, "sync.(*RWMutex).RUnlock": true,
 	"errors.New": true, "fmt.Errorf": true, "fmt.Sprintf": true, "time.Now": true, "time.Time.Unix": true, "time.Time.UnixNano": true,
-	"strconv.Itoa": true,
+	"strconv.Itoa":                           true,
 	"encoding/binary.littleEndian.PutUint32": true, "encoding/binary.littleEndian.Uint32": true, "hash/crc32.ChecksumIEEE": true,
 	"strings.(*Builder).WriteByte": true, "strings.(*Builder).WriteString": true, "strings.(*Builder).Write": true,
 	"strings.(*Builder).String": true, "strings.(*Builder).Len": true, "strings.(*Builder).Grow": true, "strings.(*Builder).Reset": true,
